@@ -1,0 +1,52 @@
+//go:build verif
+
+package types
+
+import (
+	"strings"
+
+	"github.com/fatedier/frp/verif"
+)
+
+// C18 "bandwidth literals round-trip through their textual forms" / C01
+// "rate = configured bytes per second": a bandwidth literal is a decimal number
+// followed by MB or KB; the quantity keeps the (trimmed) text and holds number x
+// unit bytes, truncated to a whole byte. Text that does not parse leaves the
+// quantity untouched. (Floating point is treated as real arithmetic: listed
+// assumption A-REAL.)
+//
+//verif:contract (*~/pkg/config/types.BandwidthQuantity).UnmarshalString
+//verif:props C18
+func verif_UnmarshalString(q *BandwidthQuantity, s string) {
+	s0, i0 := q.s, q.i
+	verif.ResetEvents()
+	err := q.UnmarshalString(s)
+	t := strings.TrimSpace(s)
+	if err != nil || t == "" {
+		verif.Ensures(q.s == s0 && q.i == i0, "unparsable_or_empty_text_leaves_the_quantity_unchanged")
+	} else {
+		isMB, isKB := strings.HasSuffix(t, "MB"), strings.HasSuffix(t, "KB")
+		verif.Ensures(isMB || isKB, "unit_is_MB_or_KB")
+		verif.Ensures(q.s == t, "text_kept")
+		f := verif.Ret[float64]("strconv.ParseFloat", 0)
+		if isMB {
+			verif.Ensures(verif.CalledWith("strconv.ParseFloat", 0, strings.TrimSuffix(t, "MB")), "number_is_the_text_before_the_unit")
+			if f >= 0 {
+				verif.Ensures(float64(q.i) <= f*1048576 && f*1048576 < float64(q.i)+1, "bytes_are_number_times_unit")
+			}
+		} else {
+			verif.Ensures(verif.CalledWith("strconv.ParseFloat", 0, strings.TrimSuffix(t, "KB")), "number_is_the_text_before_the_unit")
+			if f >= 0 {
+				verif.Ensures(float64(q.i) <= f*1024 && f*1024 < float64(q.i)+1, "bytes_are_number_times_unit")
+			}
+		}
+	}
+}
+
+// String is the kept text, Bytes the byte count.
+//
+//verif:lemma
+//verif:props C18
+func verif_quantity_accessors(q *BandwidthQuantity) {
+	verif.Assert(q.String() == q.s && q.Bytes() == q.i, "accessors_report_text_and_bytes")
+}
